@@ -1143,6 +1143,27 @@ def oracle(ctx: vlib.Ctx, boost: bool = False):
                          classify(p, s, fails))
             if i < 3:
                 ctx.sample({"position": p, "variant": variant, "string": s, "failures": fails, "sentinel": len(hits)})
+    # the empty alias and a quote alias through EVERY combination of the alias-relevant options
+    # (independent of the random stream: the empty string has no second chance among random strings)
+    import itertools
+    OPTS = ("serialize_by_alias", "allow_deserialization_not_by_alias", "forbid_extra_keys", "omit_default", "TO_DICT_ADD_BY_ALIAS_FLAG")
+    for s in ("", "it's"):
+        for how in ("metadata", "annotated", "config"):
+            for fk in ("int", "int-default", "any"):
+                for bits in itertools.product((False, True), repeat=len(OPTS)):
+                    opts = {o: True for o, b in zip(OPTS, bits) if b}
+                    src = src_alias(s, how, fk, opts)
+                    fails, hits = run_src(src)
+                    p = "alias-" + how
+                    ctx.count((p, s, fk, bits))
+                    ctx.hist("positions", p + "-exhaustive-options")
+                    if fails or hits:
+                        variant = fk + "|" + ",".join(sorted(opts))
+                        ctx.fail((f"{p} [{variant}] with string {s!r}: " + ("SENTINEL FIRED; " if hits else "") +
+                                  "; ".join(f"{w}: got {g}, expected {e}" for w, g, e in fails[:3]))[:600],
+                                 {"entry": "exec(source); check()", "source": src, "string": s, "position": p, "variant": variant,
+                                  "observed": fails[:5], "sentinel_hits": len(hits), "expected": "no failures, sentinel not fired"},
+                                 classify(p, s, fails))
     # named-tuple keys: identifiers only (Python refuses everything else)
     for j, s in enumerate(IDENTS):
         for how in ("config", "metadata"):
